@@ -90,6 +90,15 @@ Theorem C04_dispatch_isolation : forall s e j h,
 Proof. exact dispatch_runs_all. Qed.
 Print Assumptions C04_dispatch_isolation.
 
+(* when an event has passed the _eventDone gate, every one of its handlers has run to its end, whichever
+   of them raised: every plain handler was invoked, every segment of every generator handler up to and
+   including the one that returns or raises was entered *)
+Theorem C04_finished_complete : forall s e i h,
+  reachable s -> e < next s -> kind s e = KUser -> phase s e = PFin ->
+  nth_error (ev_hs (spec s e)) i = Some h -> handler_finished (log s) e i h.
+Proof. exact finished_complete. Qed.
+Print Assumptions C04_finished_complete.
+
 (* non-vacuity: a raising handler, a generator that yields twice, a generator that raises late,
    success + failure requested; ticks stepping the two tasks in both orders *)
 Definition ex_prog : list ev :=
@@ -108,6 +117,8 @@ Example C04_ex_value :
   count_der DExc 0 (log ex_state) = 2 /\ count_der DFail 0 (log ex_state) = 2 /\
   count_der DSucc 0 (log ex_state) = 0 /\ count_der DSucc 1 (log ex_state) = 1.
 Proof. vm_compute. repeat split; reflexivity. Qed.
+Example C04_ex_finished : phase ex_state 0 = PFin /\ phase ex_state 1 = PFin /\ kind ex_state 0 = KUser.
+Proof. vm_compute. auto. Qed.
 Example C04_ex_value_hyp :
   match produced (spec ex_state) 0 (log ex_state) with x :: _ :: _ => is_list x = false | _ => True end.
 Proof. vm_compute. reflexivity. Qed.
